@@ -9,7 +9,7 @@ def main():
     import recvlib
     with cf.ThreadPoolExecutor(max_workers=4) as ex:
         list(ex.map(lambda fd: senderlib.gen(ctx, fd[0], fd[1]), fams))
-        list(ex.map(lambda f: recvlib.gen_sessions(ctx, f), ["small", "clean", "car", "exp", "exp2", "mem", "wide", "medium"]))
+        list(ex.map(lambda f: recvlib.gen_sessions(ctx, f), ["small", "clean", "car", "exp", "exp2", "mem", "wide", "medium", "many"]))
     # model checking of the mechanism specifications composed with the monitors (cached by the hash of the modules)
     senderlib.mc_sender(ctx, "ok", 6)
     for variant, expect in sorted({x for v in senderlib.MC_VARIANTS.values() for x in v}):
